@@ -43,7 +43,10 @@ const MaxTicksPerStep = 1 << 27
 
 // Job is the runnable handed to the timer; Ord is the ordinal (1-based) of the start
 // call in the history, which is also the id the scheduler is expected to hand out.
-type Job struct{ Ord int64 }
+type Job struct {
+	Ord    int64
+	liveID int64 // live scenario: the id, once RunAfter has returned (atomic)
+}
 
 func (j *Job) Run() error { return nil }
 
@@ -54,7 +57,10 @@ func NewDriver(impl int64, cur0 uint64, tt0 int64) sched.VerifDriver {
 	return sched.NewVerifHeap(tt0)
 }
 
-type pendingCall struct{ done chan int64 }
+type pendingCall struct {
+	done chan int64
+	job  *Job // start calls: the runnable, whose Ord becomes the id once the call returns
+}
 
 type exec struct {
 	d          sched.VerifDriver
@@ -130,14 +136,24 @@ func (x *exec) release(q *[]pendingCall) {
 	pc := (*q)[0]
 	*q = (*q)[1:]
 	select {
-	case <-pc.done:
+	case v := <-pc.done:
+		if pc.job != nil {
+			pc.job.Ord = v
+		}
 	case <-time.After(10 * time.Second):
 	}
 }
 
-// Tick runs the worker's ticker arm while draining Chan(), so that a tick that delivers
-// more than the channel holds cannot block.  It returns the ordinals in delivery order.
+// TickDrain runs the worker's ticker arm while draining Chan(), so that a tick that
+// delivers more than the channel holds cannot block.  It returns the ordinals in delivery
+// order.  stalled: the arm did not return within the limit although nothing was left to
+// deliver (the goroutine is abandoned; it may keep spinning until the harness exits).
 func TickDrain(d sched.VerifDriver) (panicked bool, ords []int64) {
+	panicked, _, ords = TickDrainLimit(d, time.Hour)
+	return
+}
+
+func TickDrainLimit(d sched.VerifDriver, limit time.Duration) (panicked, stalled bool, ords []int64) {
 	ch := d.Timer().Chan()
 	done := make(chan bool, 1)
 	go func() {
@@ -151,10 +167,19 @@ func TickDrain(d sched.VerifDriver) (panicked bool, ords []int64) {
 			ords = append(ords, -1)
 		}
 	}
+	timer := time.NewTimer(limit)
+	defer timer.Stop()
 	for {
 		select {
 		case r := <-ch:
 			take(r)
+			if !timer.Stop() {
+				select {
+				case <-timer.C:
+				default:
+				}
+			}
+			timer.Reset(limit)
 		case panicked = <-done:
 			for {
 				select {
@@ -164,6 +189,9 @@ func TickDrain(d sched.VerifDriver) (panicked bool, ords []int64) {
 					return
 				}
 			}
+		case <-timer.C:
+			stalled = true
+			return
 		}
 	}
 }
@@ -216,7 +244,8 @@ func init() {
 // timers with delay 0 are started while nobody reads Chan(); when the worker is stuck
 // delivering (channel full) or everything has been decided, every id is cancelled; then
 // Chan() is drained until the scheduler is quiet.  The result only counts, so the verdict
-// does not depend on timing: (started delivered cancelled-true both neither final-size).
+// does not depend on timing: (started delivered cancelled-true both neither final-size
+// still-scheduled-when-received).
 func Live(impl int64, n int) Sx {
 	sched.VerifNow = nil // wall clock
 	var t sched.Timer
@@ -240,6 +269,7 @@ func Live(impl int64, n int) Sx {
 		for i := 0; i < n; i++ {
 			j := &Job{Ord: int64(i + 1)}
 			recs[i] = &rec{job: j, id: t.RunAfter(0, j)}
+			atomic.StoreInt64(&j.liveID, int64(recs[i].id))
 			atomic.StoreInt64(&issuedN, int64(i+1))
 			atomic.AddInt64(&progress, 1)
 		}
@@ -266,12 +296,16 @@ func Live(impl int64, n int) Sx {
 	// cancel every id handed out so far while the consumer is still absent
 	issued := int(atomic.LoadInt64(&issuedN))
 	delivered := map[int64]int{}
+	var stillSched int64 // one-shot timers still reported as scheduled when they were received
 	drainSome := func(limit time.Duration) {
 		end := time.Now().Add(limit)
 		for time.Now().Before(end) {
 			select {
 			case r := <-ch:
 				delivered[r.(*Job).Ord]++
+				if id := atomic.LoadInt64(&r.(*Job).liveID); id != 0 && t.IsScheduled(int(id)) {
+					stillSched++
+				}
 				end = time.Now().Add(limit)
 			default:
 				time.Sleep(time.Millisecond)
@@ -334,7 +368,7 @@ func Live(impl int64, n int) Sx {
 		}
 	}
 	t.Shutdown()
-	return Ints(int64(n), nDelivered, nCancelled, both, neither, int64(size))
+	return Ints(int64(n), nDelivered, nCancelled, both, neither, int64(size), stillSched)
 }
 
 // Run executes the history of `in` = (impl cur0 tt0 (op ...)) and returns (obs ...).
@@ -346,11 +380,18 @@ func Run(in Sx) Sx {
 	x := &exec{d: NewDriver(impl, in.At(1).Uint64(), in.At(2).Int64())}
 	x.tm = x.d.Timer()
 	ops := in.At(3)
+	jumpAt, jumpTo := -1, int64(0)
+	if in.Len() >= 6 {
+		jumpAt, jumpTo = int(in.At(4).Int64()), in.At(5).Int64()
+	}
 	var obs []Sx
 	const capQ = sched.PendingQueueCapacity
 loop:
 	for i := 0; i < ops.Len(); i++ {
 		atomic.AddInt64(&progress, 1)
+		if i == jumpAt {
+			x.d.SetNextID(int(jumpTo))
+		}
 		op := ops.At(i)
 		switch op.At(0).Int64() {
 		case OpStart, OpEvery:
@@ -365,7 +406,11 @@ loop:
 				return int64(x.tm.RunAfter(arg, job))
 			})
 			obs = append(obs, Ints(code, v))
+			if code == 0 {
+				job.Ord = v // deliveries are reported by the id the scheduler handed out
+			}
 			if code == 1 {
+				pc.job = job
 				x.blockedAdd = append(x.blockedAdd, pc)
 			}
 			if code >= 2 {
@@ -430,17 +475,21 @@ loop:
 				obs = append(obs, Ints(3))
 				break loop
 			}
+			limit := 3*time.Second + time.Duration(x.behind>>20)*200*time.Millisecond
 			x.behind = 0
-			panicked, ords := TickDrain(x.d)
+			panicked, stalled, ords := TickDrainLimit(x.d, limit)
 			l := []Sx{Int(0)}
 			if panicked {
 				l[0] = Int(2)
+			}
+			if stalled {
+				l[0] = Int(4) // the ticker arm never returned
 			}
 			for _, o := range ords {
 				l = append(l, Int(o))
 			}
 			obs = append(obs, ListOf(l))
-			if panicked {
+			if panicked || stalled {
 				break loop
 			}
 		case OpProbe:
@@ -463,11 +512,16 @@ type Hist struct {
 	NextID    int64 // ids are expected to be 1, 2, 3, ...
 	QueuedAdd int
 	QueuedDel int
+	JumpAt    int // -1: none; else the id counter is set to JumpTo before op number JumpAt
+	JumpTo    int64
 }
 
 func NewHist(impl int64, cur0 uint64, tt0 int64) *Hist {
-	return &Hist{Impl: impl, Cur0: cur0, TT0: tt0}
+	return &Hist{Impl: impl, Cur0: cur0, TT0: tt0, JumpAt: -1}
 }
+
+// Jump positions the id counter before the next op.
+func (h *Hist) Jump(to int64) { h.JumpAt, h.JumpTo = len(h.Ops), to }
 
 func (h *Hist) Start(d int64) int64 {
 	h.Ops = append(h.Ops, Ints(OpStart, d))
@@ -498,5 +552,8 @@ func (h *Hist) Tick()        { h.Ops = append(h.Ops, Ints(OpTick)) }
 func (h *Hist) Adv(n int64)  { h.Pass(n); h.Tick() }
 func (h *Hist) Probe()       { h.Ops = append(h.Ops, Ints(OpProbe)) }
 func (h *Hist) Sx() Sx {
+	if h.JumpAt >= 0 {
+		return List(Int(h.Impl), Uint(h.Cur0), Int(h.TT0), ListOf(h.Ops), Int(int64(h.JumpAt)), Int(h.JumpTo))
+	}
 	return List(Int(h.Impl), Uint(h.Cur0), Int(h.TT0), ListOf(h.Ops))
 }
